@@ -85,3 +85,6 @@ Definition spec_last_business_day (d : Z) : bool :=
 
 (* number of days from 1970-01-01 up to and including 2199-12-31 *)
 Definition supported_days : Z := 84006.
+
+(* one full period of the Gregorian calendar: 400 years = 146 097 days = 20 871 weeks *)
+Definition cycle_days : Z := 146097.
